@@ -329,6 +329,25 @@ func propC20(c *Ctx) {
 				}
 			}
 		}
+		// the search form (slices.IndexFunc / ContainsFunc over the list): a nil path on which
+		// the symbolic element of the whitelist was decoded without error
+		if o2.Sites == 0 {
+			for _, p := range c.Paths(pv, PO{Params: []string{"p", "ac"}, Visits: 3, NoInline: []string{"MinGasPrices"}}) {
+				if !p.OK() || p.Panic {
+					continue
+				}
+				if p.HasFact(len(p.Events), func(a *Term, pol bool) bool {
+					x := eqOther(a, "nil")
+					if !pol || x == nil || x.Op != "extract" || x.Name != "1" {
+						return false
+					}
+					d := decodedFrom(x.Args[0])
+					return d != nil && d.Op == "index" && strip(d.Args[0]).Key() == "p.FeeWhitelist"
+				}) {
+					o2.Sites++
+				}
+			}
+		}
 		if nOK == 0 || o2.Sites == 0 {
 			o2.Fail(c.W.Pos(pv.Pos()), "no nil path that visits a whitelist element", nil)
 		}
